@@ -88,7 +88,7 @@ def enumerate_faults(data: bytes) -> list[dict]:
             k += 1
     for variant in range(4):
         out.append({"fault": "extra_member", "variant": variant})
-    for mode in ("reverse", "rotate", "gaps", "shuffle"):
+    for mode in ("reverse", "rotate", "gaps", "shuffle", "lastfits", "firstbig"):
         out.append({"fault": "rename_slides", "mode": mode, "seed": 3})
     out.append({"fault": "remove_core_props", "how": "member"})
     out.append({"fault": "remove_core_props", "how": "member+rel"})
